@@ -22,13 +22,13 @@ type MCRegion struct {
 
 // MCEvent is one memcall call.
 type MCEvent struct {
-	Idx    int
-	Op     string
-	Base   uintptr
-	Gen    int
-	Fault  bool
-	Err    string
-	Note   string
+	Idx   int
+	Op    string
+	Base  uintptr
+	Gen   int
+	Fault bool
+	Err   string
+	Note  string
 }
 
 // Memcall monitors (and perturbs) the memory primitives used by the secure-memory implementations. It delegates
